@@ -171,8 +171,15 @@ func (r *Round) GetVerificationTickets(blockID string) []*block.VerificationTick
 	var vts []*block.VerificationTicket
 	r.roundGuard.Lock()
 	defer r.roundGuard.Unlock()
+	// the cache is keyed by the signature string: one ticket per verifier, however
+	// many spellings of its signature were received
+	seen := make(map[string]struct{})
 	for _, bvt := range r.verificationTickets {
 		if blockID == bvt.BlockID {
+			if _, ok := seen[bvt.VerifierID]; ok {
+				continue
+			}
+			seen[bvt.VerifierID] = struct{}{}
 			vts = append(vts, &bvt.VerificationTicket)
 		}
 	}
